@@ -121,9 +121,9 @@ def isJ (c : Char) : Bool := c = 'j' ∨ c = 'J'
 
 /-- `complex_from_string_inner` of CPython -/
 def readComplex (text : List Char) : Option (Rat × Rat) :=
-  let s := stripBy isWhite text
+  let s := stripBy isCSpace text
   let (s, paren) := match s with
-    | '(' :: r => (r.dropWhile isWhite, true)
+    | '(' :: r => (r.dropWhile isCSpace, true)
     | _ => (s, false)
   let res : Option (Rat × Rat × List Char) :=
     match floatPrefix s with
@@ -154,10 +154,10 @@ def readComplex (text : List Char) : Option (Rat × Rat) :=
   match res with
   | none => none
   | some (x, y, rest) =>
-    let rest := rest.dropWhile isWhite
+    let rest := rest.dropWhile isCSpace
     if paren then
       match rest with
-      | ')' :: r => if (r.dropWhile isWhite).isEmpty then some (x, y) else none
+      | ')' :: r => if (r.dropWhile isCSpace).isEmpty then some (x, y) else none
       | _ => none
     else if rest.isEmpty then some (x, y) else none
 
